@@ -100,3 +100,155 @@ Proof.
     as (o & Eo).
   exists o. fold (lenZ src). rewrite Eo. reflexivity.
 Qed.
+
+(* ---------- closed forms of dq_finish ---------- *)
+Lemma dq_finish_4 e room d0 d1 d2 d3 s err :
+  0 <= d0 < 64 -> 0 <= d1 < 64 -> 0 <= d2 < 64 -> 0 <= d3 < 64 ->
+  dq_finish e room [d0; d1; d2; d3] 4 s err =
+  if room <? 3 then QPanic
+  else QOk s [d0 + 64 * (d1 mod 4); d1 / 4 + 16 * (d2 mod 16); d2 / 16 + 4 * d3] err.
+Proof.
+  intros H0 H1 H2 H3. unfold dq_finish. cbv zeta. cbn [nth]. change (4 =? 4) with true. cbv iota.
+  rewrite dq0_closed, dq1_closed, dq2_closed by assumption. reflexivity.
+Qed.
+
+Lemma dq_finish_3 e room d0 d1 d2 s err :
+  0 <= d0 < 64 -> 0 <= d1 < 64 -> 0 <= d2 < 64 ->
+  dq_finish e room [d0; d1; d2] 3 s err =
+  if room <? 2 then QPanic
+  else if e_strict e && negb (d2 / 16 =? 0) then QOk s [] (Some (s - 1))
+  else QOk s [d0 + 64 * (d1 mod 4); d1 / 4 + 16 * (d2 mod 16)] err.
+Proof.
+  intros H0 H1 H2. unfold dq_finish. cbv zeta. cbn [nth].
+  change (3 =? 4) with false. change (3 =? 3) with true. cbv iota.
+  rewrite dq0_closed, dq1_closed, dq2_closed by (assumption || lia).
+  replace (d2 / 16 + 4 * 0) with (d2 / 16) by lia. reflexivity.
+Qed.
+
+Lemma dq_finish_2 e room d0 d1 s err :
+  0 <= d0 < 64 -> 0 <= d1 < 64 ->
+  dq_finish e room [d0; d1] 2 s err =
+  if room <? 1 then QPanic
+  else if e_strict e && negb (d1 / 4 =? 0) then QOk s [] (Some (s - 2))
+  else QOk s [d0 + 64 * (d1 mod 4)] err.
+Proof.
+  intros H0 H1. unfold dq_finish. cbv zeta. cbn [nth].
+  change (2 =? 4) with false. change (2 =? 3) with false. change (2 =? 2) with true. cbv iota.
+  rewrite dq0_closed, dq1_closed, dq2_closed by (assumption || lia).
+  change (0 mod 16) with 0. change (0 / 16 + 4 * 0) with 0. change (0 =? 0) with true.
+  replace (d1 / 4 + 16 * 0) with (d1 / 4) by lia. cbn [negb]. rewrite orb_false_r. reflexivity.
+Qed.
+
+(* ---------- stripping newlines vs. the scanner ---------- *)
+Lemma strip_nl_cons_nl c r : is_newline c = true -> strip_nl (c :: r) = strip_nl r.
+Proof. intros H. unfold strip_nl. cbn [filter]. rewrite H. reflexivity. Qed.
+Lemma strip_nl_cons c r : is_newline c = false -> strip_nl (c :: r) = c :: strip_nl r.
+Proof. intros H. unfold strip_nl. cbn [filter]. rewrite H. reflexivity. Qed.
+Lemma strip_nl_app a b : strip_nl (a ++ b) = strip_nl a ++ strip_nl b.
+Proof. unfold strip_nl. apply filter_app. Qed.
+Lemma strip_nl_newlines nls : forallb is_newline nls = true -> strip_nl nls = [].
+Proof.
+  induction nls as [|c r IH]; [reflexivity|]. cbn [forallb]. intros H. apply andb_true_iff in H.
+  destruct H as [H1 H2]. rewrite strip_nl_cons_nl by exact H1. auto.
+Qed.
+Lemma strip_nl_nil_inv r : strip_nl r = [] -> forallb is_newline r = true.
+Proof.
+  induction r as [|c r IH]; [reflexivity|]. intros H. destruct (is_newline c) eqn:En.
+  - rewrite strip_nl_cons_nl in H by exact En. cbn [forallb]. rewrite En. auto.
+  - rewrite strip_nl_cons in H by exact En. discriminate.
+Qed.
+
+Section Scan.
+Variable e : encoding.
+Hypothesis Hok : enc_ok e = true.
+
+Lemma sym_char_not_nl x : dmap e x <> 255 -> is_newline x = false.
+Proof. intros H. destruct (is_newline x) eqn:E; [|reflexivity]. apply (dmap_newline e Hok) in E. contradiction. Qed.
+
+Lemma strip_first rest : forall x more, strip_nl rest = x :: more ->
+  exists nls r', rest = nls ++ x :: r' /\ strip_nl r' = more /\ forallb is_newline nls = true /\ is_newline x = false.
+Proof.
+  induction rest as [|c r IH]; intros x more H; [discriminate|].
+  destruct (is_newline c) eqn:En.
+  - rewrite strip_nl_cons_nl in H by exact En. destruct (IH _ _ H) as (nls & r' & E1 & E2 & E3 & E4).
+    exists (c :: nls), r'. subst r. cbn [forallb app]. rewrite En, E3. auto.
+  - rewrite strip_nl_cons in H by exact En. inversion H; subst. exists [], r. auto.
+Qed.
+
+Lemma nxt_newlines nls : forall r si, forallb is_newline nls = true ->
+  nxt e (nls ++ r) si = nxt e r (si + lenZ nls).
+Proof.
+  induction nls as [|c nls IH]; intros r si H.
+  - rewrite lenZ_nil. cbn [app]. f_equal. lia.
+  - cbn [forallb] in H. apply andb_true_iff in H. destruct H as [H1 H2].
+    cbn [app nxt]. rewrite (dmap_newline e Hok c H1). change (255 =? 255) with true. cbn [negb]. rewrite H1.
+    rewrite IH by exact H2. rewrite lenZ_cons. f_equal. lia.
+Qed.
+
+Lemma skip_newlines nls : forall r si, forallb is_newline nls = true ->
+  skip_nl (nls ++ r) si = skip_nl r (si + lenZ nls).
+Proof.
+  induction nls as [|c nls IH]; intros r si H.
+  - rewrite lenZ_nil. cbn [app]. f_equal. lia.
+  - cbn [forallb] in H. apply andb_true_iff in H. destruct H as [H1 H2].
+    cbn [app skip_nl]. rewrite H1. rewrite IH by exact H2. rewrite lenZ_cons. f_equal. lia.
+Qed.
+
+Lemma nxt_strip_sym rest si x more : strip_nl rest = x :: more -> dmap e x <> 255 ->
+  exists nls r', rest = nls ++ x :: r' /\ strip_nl r' = more /\
+                 nxt e rest si = NSym (dmap e x) x r' (si + lenZ nls + 1).
+Proof.
+  intros H Hx. destruct (strip_first rest x more H) as (nls & r' & E1 & E2 & E3 & E4).
+  exists nls, r'. split; [exact E1|]. split; [exact E2|]. subst rest.
+  rewrite nxt_newlines by exact E3. cbn [nxt]. apply Z.eqb_neq in Hx. rewrite Hx. reflexivity.
+Qed.
+
+Lemma nxt_strip_pad rest si x more : strip_nl rest = x :: more -> is_pad e x = true ->
+  exists nls r', rest = nls ++ x :: r' /\ strip_nl r' = more /\
+                 nxt e rest si = NPad r' (si + lenZ nls + 1).
+Proof.
+  intros H Hx. destruct (strip_first rest x more H) as (nls & r' & E1 & E2 & E3 & E4).
+  exists nls, r'. split; [exact E1|]. split; [exact E2|]. subst rest.
+  rewrite nxt_newlines by exact E3. cbn [nxt]. rewrite (dmap_pad e Hok x Hx). change (255 =? 255) with true.
+  cbn [negb]. rewrite E4, Hx. reflexivity.
+Qed.
+
+Lemma nxt_strip_end rest si : strip_nl rest = [] -> nxt e rest si = NEnd (si + lenZ rest).
+Proof.
+  intros H. apply strip_nl_nil_inv in H. rewrite <- (app_nil_r rest) at 1.
+  rewrite nxt_newlines by exact H. reflexivity.
+Qed.
+
+Lemma skip_strip_cons rest si x more : strip_nl rest = x :: more ->
+  exists nls r', rest = nls ++ x :: r' /\ strip_nl r' = more /\ skip_nl rest si = (x :: r', si + lenZ nls).
+Proof.
+  intros H. destruct (strip_first rest x more H) as (nls & r' & E1 & E2 & E3 & E4).
+  exists nls, r'. split; [exact E1|]. split; [exact E2|]. subst rest.
+  rewrite skip_newlines by exact E3. cbn [skip_nl]. rewrite E4. reflexivity.
+Qed.
+
+Lemma skip_strip_nil rest si : strip_nl rest = [] -> skip_nl rest si = ([], si + lenZ rest).
+Proof.
+  intros H. apply strip_nl_nil_inv in H. rewrite <- (app_nil_r rest) at 1.
+  rewrite skip_newlines by exact H. reflexivity.
+Qed.
+
+Lemma dq_sym_step room srclen rest si j dbuf x more :
+  Nat.eqb j 4 = false -> strip_nl rest = x :: more -> dmap e x <> 255 ->
+  exists nls r', rest = nls ++ x :: r' /\ strip_nl r' = more /\
+    dq_loop e room srclen rest si j dbuf = dq_loop e room srclen r' (si + lenZ nls + 1) (S j) (dbuf ++ [dmap e x]).
+Proof.
+  intros Hj H Hx. destruct (nxt_strip_sym rest si x more H Hx) as (nls & r' & E1 & E2 & E3).
+  exists nls, r'. split; [exact E1|]. split; [exact E2|].
+  rewrite dq_loop_step by exact Hj. rewrite E3. reflexivity.
+Qed.
+End Scan.
+
+Lemma skipn_consumed1 (src : bytes) si nls x r' :
+  0 <= si -> skipn (Z.to_nat si) src = nls ++ x :: r' ->
+  skipn (Z.to_nat (si + lenZ nls + 1)) src = r'.
+Proof.
+  intros Hsi H. replace (nls ++ x :: r') with ((nls ++ [x]) ++ r') in H by (rewrite <- app_assoc; reflexivity).
+  apply skipn_consumed in H; [|exact Hsi]. rewrite lenZ_app in H.
+  replace (si + lenZ nls + 1) with (si + (lenZ nls + lenZ [x])) by (unfold lenZ; cbn [length]; lia). exact H.
+Qed.
